@@ -328,9 +328,9 @@ impl<T: Crdt> Machine<T> {
                             Some(s) => {
                                 let same = T::eq(&self.reps[r], &s).map(|b| b.to_string()).unwrap_or("na".into());
                                 self.reps[r] = s;
-                                Some(format!("json={} same={} {}", t, same, T::obs(&self.reps[r])))
+                                Some(format!("json={} restore=ok same={} {}", t, same, T::obs(&self.reps[r])))
                             }
-                            None => Some(format!("json={} norestore", t)),
+                            None => Some(format!("json={} restore=fail norestore", t)),
                         }
                     }
                 }
@@ -350,9 +350,9 @@ impl<T: Crdt> Machine<T> {
                                 Some(o2) => {
                                     let shown = T::show_op(&o2);
                                     self.ops.insert(name.to_string(), o2);
-                                    Some(format!("json={} op={}", t, shown))
+                                    Some(format!("json={} restore=ok op={}", t, shown))
                                 }
-                                None => Some(format!("json={} norestore", t)),
+                                None => Some(format!("json={} restore=fail norestore", t)),
                             }
                         }
                     },
